@@ -264,7 +264,7 @@ func c11RunBuckets(sc c11Buckets) (vs []ev.V) {
 				time.Sleep(time.Duration(sc.AgeSec[i]) * time.Second)
 			}
 			key := fmt.Sprintf("key%d", k)
-			if held[k] {
+			if held[k] && sc.Release[i] {
 				bs.Release(key)
 				held[k] = false
 				continue
@@ -272,6 +272,12 @@ func c11RunBuckets(sc c11Buckets) (vs []ev.V) {
 			ctx, cancel := context.WithTimeout(context.Background(), 10*time.Millisecond)
 			err := bs.TakeContext(ctx, key)
 			cancel()
+			if err == nil && held[k] {
+				// the limiter of every key is a semaphore of 1 and the harness still holds its permit
+				vs = append(vs, ev.Vf("buckets:limit-exceeded", "BucketSet (capacity %d, semaphore of 1 per key): a second permit for %s was granted while the first is still held (operation %d of keys %v, ages %v)", sc.Capacity, key, i, sc.Keys, sc.AgeSec))
+				bs.Release(key)
+				continue
+			}
 			if err == nil {
 				if sc.Release[i] {
 					bs.Release(key)
@@ -300,7 +306,7 @@ func TestVerifC11(t *testing.T) {
 	r.Rule("group: limits.Group built through its real Init from generated configuration (all / ip / source / destination concurrency N in 0..3), 1-64 workers each taking the message permits for one of 2 " +
 		"source IPs x 3 source domains and optionally a destination permit, holding them 0-7 s and releasing, started at 0-6 s, all inside a synctest bubble (virtual 5 s acquisition time-out); oracle: a " +
 		"harness-side holder count per (scope, key) never exceeds N, no panic, afterwards the full N can be acquired per scope and key. Non-trivial = two workers contend for one key of a configured scope. " +
-		"buckets: BucketSet with capacity 1-4 and 1-12 take/release operations over up to 8 distinct keys with virtual pauses up to 3 min; oracle: no panic. " +
+		"buckets: BucketSet with capacity 1-4 and 1-12 take/release operations over up to 8 distinct keys with virtual pauses up to 3 min; oracle: no panic, never a second permit for a key whose permit is held. " +
 		"endpoint and remote-target layers: see C03 (permits after SMTP sessions) and the remote unit of this check. Distinct = distinct scenario.")
 	ev.Run(t, r, ev.Spec[c11Scenario]{Name: "group", N: r.N, Gen: c11Gen, Run: c11Run, Info: c11Info})
 	ev.Run(t, r, ev.Spec[c11Buckets]{Name: "buckets", N: r.Scale(1, 2, 50), Gen: func(t *rapid.T) c11Buckets {
